@@ -167,6 +167,25 @@ func builtinMatrix() []*Program {
 		ps = append(ps, cell(fmt.Sprintf("string(%s,1,2)", a.name), Def("a", a.mk()), Def("r", Call(Id("string"), Id("a"), Int(1), Int(2)))))
 		ps = append(ps, cell(fmt.Sprintf("append(%s,1,2)", a.name), Def("a", a.mk()), Def("r", Call(Id("append"), Id("a"), Int(1), Int(2)))))
 	}
+	// range(start, stop[, step]): every combination of small ints (ascending, descending, empty, step not dividing, step <= 0),
+	// wrong arities and one wrongly typed position
+	rv := []int64{-3, -1, 0, 1, 2, 5}
+	for _, a := range rv {
+		for _, b := range rv {
+			ps = append(ps, cell(fmt.Sprintf("range(%d,%d)", a, b), Def("r", Call(Id("range"), Int(a), Int(b))), Def("n", Call(Id("len"), Id("r")))))
+			for _, st := range []int64{-1, 0, 1, 2, 3, 7} {
+				ps = append(ps, cell(fmt.Sprintf("range(%d,%d,%d)", a, b, st), Def("r", Call(Id("range"), Int(a), Int(b), Int(st)))))
+			}
+		}
+	}
+	ps = append(ps, cell("range()", Def("r", Call(Id("range")))), cell("range(1)", Def("r", Call(Id("range"), Int(1)))),
+		cell("range(1,2,3,4)", Def("r", Call(Id("range"), Int(1), Int(2), Int(3), Int(4)))))
+	for _, a := range u {
+		ps = append(ps, cell(fmt.Sprintf("range(%s,3)", a.name), Def("a", a.mk()), Def("r", Call(Id("range"), Id("a"), Int(3)))))
+		ps = append(ps, cell(fmt.Sprintf("range(0,%s)", a.name), Def("a", a.mk()), Def("r", Call(Id("range"), Int(0), Id("a")))))
+		ps = append(ps, cell(fmt.Sprintf("range(0,3,%s)", a.name), Def("a", a.mk()), Def("r", Call(Id("range"), Int(0), Int(3), Id("a")))))
+		ps = append(ps, cell(fmt.Sprintf("range(%s,3,0)", a.name), Def("a", a.mk()), Def("r", Call(Id("range"), Id("a"), Int(3), Int(0)))))
+	}
 	// int/string conversions of numeric strings and numbers at the edges of the model's range
 	for _, s := range []string{"0", "-0", "+5", "12", "-12", "007", "1_0", " 1", "1 ", "0x10", "1.5", "abc", "", "99999999"} {
 		ps = append(ps, cell("int("+s+")", Def("r", Call(Id("int"), Str(s))), Def("c", Arr(Int(1), Int(2))), Def("d", Call(Id("int"), Str(s), Int(-1)))))
